@@ -6,6 +6,9 @@ V = os.path.dirname(os.path.dirname(os.path.abspath(__file__)))
 
 # id -> (category, technique, level text, level note, design ref)
 CLAIMED = {
+ "C01": ("fault_enumeration", "two-endpoint network simulation driven by proptest schedules (workload x delivery interleaving x chunking x transport loss) with a delivery-ledger oracle; systematic single-loss sweep",
+         "A Connection<Client> and a Connection<Server> exchange the bytes each requests to send through two FIFO byte queues under generated schedules of publishes (QoS0/1/2, aliases), subscribe/unsubscribe, pings, partial deliveries and up to 3 transport losses cutting both queues at arbitrary bytes with persistent-session resume; every case ends with a loss-free drain. Neither side may report a protocol error about the other, the drain is count-bounded, the ledger demands QoS2 exactly once / QoS1 at least once (exactly once without loss) / QoS0 at most once with original topic and payload, and at quiescence ids, store and Receive Maximum vacancy are restored. A systematic sweep inserts one loss at every op position with every byte cut of both queues for fixed tiny workloads.",
+         "The application layer of both ends is the harness (answers as the documentation prescribes when automatic responses are off). Limits are constant across resumes and never smaller than an acknowledgement. Termination is decided by a delivery budget, not a clock.", "DESIGN.md §3 C01"),
  "C02": ("exploration", "property-based round-trip testing (proptest, shrinking) with an independent framer",
          "Random search over abstract packets of all 29 kinds x {u16,u32} ids built through the public builders; checks parse(serialise(p))==p, consumed==body, size()==len, wire Remaining Length, vectored==contiguous, store-packet and v5 PUBLISH rewrite helpers. Sampling, not proof; boundary lengths are generated on purpose.",
          "Trusts the harness' reference framer (refcodec::frame) and the library's derived PartialEq as the notion of 'equal packet'.", "DESIGN.md §3 C02"),
@@ -30,6 +33,12 @@ CLAIMED = {
  "C09": ("exploration", "metamorphic/differential property testing of the stream framer (chunking invariance) with exhaustive 1-/2-cut partitions of short streams",
          "Random streams of valid packets, over-long Remaining Lengths and garbage are cut by random, per-byte and header-targeted partitions; PacketBuilder::feed must agree with an independent reference framer (one result per call, no over-read, resume after a bad length) and a chunk-fed connection must produce the same normalised event trace and final state as a whole-frame-fed one. All 1- and 2-cut partitions of 1000 (thorough 10000) short streams are enumerated.",
          "Trusts refcodec::frame as the reference framer. Runs of consecutive id-release events are compared as multisets (hash-set order). A panic in recv is left to C05.", "DESIGN.md §3 C09"),
+ "C10": ("exploration", "differential property testing: reused object vs freshly constructed (or fresh + restored) object under the same second-connection script",
+         "A generated first-connection history (negotiated limits, aliases, keep-alive, pending exchanges, armed timers, a partial frame in the framer, role Any as client then server; any close path) is followed by a second-connection script. When the script starts a new session the reused object must produce the same events, op by op, as a fresh object with the same options, and verif_state must be equal after the handshake (the report names the leaking field). When it resumes, the comparison is against a fresh object given the export and the ids the application holds.",
+         "An undetermined server is compared with a fresh server of the adopted version (C17). Cases whose second handshake does not complete, or whose first connection ends with exchanges the export cannot carry (B), are skipped and counted.", "DESIGN.md §3 C10"),
+ "C11": ("exploration", "exhaustive enumeration of the finite send-gating matrix against an independent MQTT role/version/state table; compile-time Sendable table via an inherent-const probe",
+         "All cells {Client,Server,Any} x constructor version {3.1.1,5.0,undetermined} x state {fresh, after close, connecting, connected; Any as client and as server} x persistent x offline x 17 send kinds (PUBLISH per QoS) x both packet versions x 2 content variants are executed (ids acquired beforehand): forbidden => only error events, id released iff the packet initiates an exchange, verif_state unchanged; allowed => RequestSendPacket carries exactly that packet; not-connected QoS>0 PUBLISH/PUBREL with kept session => never transmitted and either refused cleanly or stored. The 87-cell compile-time Sendable<Role> table is evaluated with an inherent-const-over-trait-const probe at concrete types and compared with the same role table; checked_send == send.",
+         "Release on refusal is required only for exchange-initiating packets. The matrix is complete for the enumerated dimensions (exhaustive: true); packet contents are two fixed variants per kind.", "DESIGN.md §3 C11"),
  "C12": ("exploration", "model-based stateful property testing against a window model of incomplete exchanges (proptest histories, boundary-biased Receive Maximum)",
          "v5.0 histories with the peer's Receive Maximum mostly in {1,2,3}: QoS1/2 sends up to and beyond the limit, acknowledgements (success and error), erasures, other refusals, closes and resumes with stored PUBLISH/PUBREL and changed limits. A publish is accepted iff fewer than M exchanges of this connection are incomplete; get_receive_maximum_vacancy_for_send() must equal M minus that number after every op of an established connection; inbound publishes beyond the own Receive Maximum must be refused with DISCONNECT 0x93 and never falsely.",
          "Exchanges awaited but not retransmitted at a resume (pending PUBREL, awaited without being stored) may be counted from the resume or from their next packet: both readings accepted (range check). Inbound publishes that were not delivered may or may not occupy the window. Applications never abandon an exchange by releasing its id in this profile.", "DESIGN.md §3 C12"),
@@ -42,6 +51,12 @@ CLAIMED = {
  "C15": ("exploration", "history invariant (monitor) against a timer model over proptest-generated histories",
          "Histories with keep-alive {0,1,10,65535}, Server Keep Alive {absent,0,7}, ping-interval override {None,0,3000}, response timeout {0,5000} changed at arbitrary points, all sends/receives, expiries of armed timers only, closes, DISCONNECTs, reconnects; all roles/versions. Checks: cancel only when armed, nothing armed after close/DISCONNECT or by local calls while disconnected, client re-arm with the priority-selected interval after every list that sends, server 1.5 x keep-alive re-arm on every accepted packet and never for 0, PINGREQ/PINGRESP response timer, expiry effects.",
          "'Local call' excludes recv and notify_timer_fired; expiry effects asserted while established and before a close request.", "DESIGN.md §3 C15"),
+ "C16": ("fault_enumeration", "crash-point enumeration: every prefix of every generated persistent-session history is exported, restored into a fresh object and resumed; differential against the surviving original",
+         "For each generated history and each prefix: export (stored packets, QoS2 handled ids), restore into a fresh object, reconnect with session present, run a suffix (acks for restored ids by index, QoS2 duplicates, new publishes, Receive Maximum). The retransmission must equal the export, restored ids are in use and not registrable, their acknowledgements are accepted with release, pre-crash QoS2 duplicates stay suppressed, and the suffix trace equals that of the original object closed and resumed the same way. Malformed exports (duplicate ids, PUBLISH+PUBREL with one id, other-version entries) must not panic.",
+         "The differential is skipped (counted) when the crash point has exchanges the export cannot carry or unused ids held by the application.", "DESIGN.md §3 C16"),
+ "C17": ("exploration", "exhaustive enumeration of the receive-gating matrix against an independent table; differential testing of auto-detection (undetermined vs fixed-version server)",
+         "All cells role x constructor version x state x 16 type nibbles are fed a valid reference packet of that type (the connected state is prepared so that every acknowledgement is legitimate): kinds the remote side of the role can never send => protocol error, not delivered, state unchanged; legitimate kinds => delivered; CONNECT/CONNACK on an established connection => protocol error with session fields untouched. Auto-detection: 100k generated scripts (incl. hostile frames) run against Server(undetermined) and Server(fixed) must give equal traces; other first packets and protocol levels are rejected and the version stays undetermined.",
+         "Non-existent types (0, 15 under v3.1.1) may be reported as protocol error or malformed packet.", "DESIGN.md §3 C17"),
  "C18": ("exploration", "exhaustive table enumeration against the specification's property table plus random property sets (proptest)",
          "The complete table 27 property kinds x 14 locations x occurrences {1,2} x boundary values is enumerated for the builder path and, through independently encoded bytes, for the parser path; 200k (thorough 3M) random multi-property sets follow. Verdicts must equal MQTT 5.0 table 2-4 plus the value rules, and builder must equal parser.",
          "The oracle table is transcribed in harness/src/ap.rs (PROP_TABLE, prop_value_ok). Authentication Data is always accompanied by an Authentication Method (cross-property rule kept out of the cells).", "DESIGN.md §3 C18"),
@@ -54,7 +69,7 @@ CLAIMED = {
 }
 
 ALL = ["C%02d" % i for i in range(1, 21)]
-NOT_YET = "check not built yet in this session (planned; see DESIGN.md §3)"
+NOT_YET = "not claimed"
 
 def main():
     hooks_commits = subprocess.run(["git", "-C", "/repo", "log", "--format=%h %s"], capture_output=True, text=True).stdout.splitlines()
